@@ -331,7 +331,9 @@ class InMemoryPersister(Persister):
         self._checkpoints.setdefault(process.pid, {})[tag] = Bundle(process, self._save_context, dereference=True)
 
     def load_checkpoint(self, pid: PID_TYPE, tag: Optional[str] = None) -> Bundle:
-        return self._checkpoints[pid][tag]
+        # Hand out a copy: the loaded process shares mutable values (e.g. its context) with the bundle it is loaded
+        # from, and running it must not change the stored checkpoint
+        return copy.deepcopy(self._checkpoints[pid][tag])
 
     def get_checkpoints(self) -> List[PersistedCheckpoint]:
         cps = []
